@@ -112,7 +112,8 @@ type Spec struct {
 	NFiles    int        `json:"nfiles"`
 	OneInvoke bool       `json:"one_invoke"` // all k*.go files passed to one generator invocation
 	Shape     string     `json:"shape"`
-	Wide      bool       `json:"wide,omitempty"` // one provider has more than 64 parameters
+	Wide      bool       `json:"wide,omitempty"`  // one provider has more than 64 parameters
+	Large     bool       `json:"large,omitempty"` // 20-40 function providers
 	// MultiVarSets renders the named Sets of an injector in one multi-name var spec.
 	MultiVarSets bool `json:"multi_var_sets,omitempty"`
 	// Compose, if set, adds one more declaration file whose injector uses an injector GENERATED from an
